@@ -111,3 +111,107 @@ Theorem C04_generated_error_from_table_is_model :
        snd (error_from_table (w_known w) (w_isinst w) (w_builtin w) (w_page w) a m e)).
 Proof. exact gen_error_from_table_eq. Qed.
 Print Assumptions C04_generated_error_from_table_is_model.
+
+(* ---- translator tie for the abort object: what the ladder above does with
+   an abort -- [exc_response] (through [exn_make_response], the primitive the
+   generated request cycle calls for `http_err.make_response()`), the status
+   an abort carries and the exception [call (Abort c)] / [call (AbortResp r)]
+   raises -- is equal to the definitions generated from the current
+   poorwsgi/response.py (class HTTPException, function abort) by
+   harness/py2v_abort.py (gen/AbortGen.v is rewritten on every check run),
+   over lib/PyAbort.v; [self_args w e] is `self.args` of the exception [e] as
+   the generated request cycle reads it ([getattr_ w (DE e) A_args]) *)
+Require Import PW.lib.PyShapes PW.lib.PyAbort PW.gen.AbortGen PW.proofs.AbortGenEq.
+
+Theorem C04_generated_abort_make_response_is_model :
+  forall w a e,
+    w_known w 200 = true -> w_known w 204 = true -> is_http e = true ->
+    bind (self_args w e) (gen_abort_make_response w a) = exn_make_response (DE e)
+    /\ exn_make_response (DE e)
+       = ret (match exc_response e with Some r => DV (PResp r) | None => DV PNone end).
+Proof. exact abort_make_response_tie. Qed.
+Print Assumptions C04_generated_abort_make_response_is_model.
+
+(* the status an abort carries (property `status_code`: the int itself, else
+   the status of the response, which is the response the ladder answers
+   with) and the property `response` *)
+Theorem C04_generated_abort_status_code_is_model :
+  forall w a,
+    (forall c, bind (self_args w (EHttp c)) (gen_abort_status_code w a) = ret (DV (PInt c)))
+    /\ (forall r, exc_response (EHttpResp r) = Some r
+                  /\ bind (self_args w (EHttpResp r)) (gen_abort_status_code w a)
+                     = ret (DV (PInt (rstatus r))))
+    /\ (forall e, is_http e = true ->
+                  bind (self_args w e) (gen_abort_response w a)
+                  = ret (match e with EHttpResp r => DV (PResp r) | _ => DV PNone end)).
+Proof. exact abort_status_code_tie. Qed.
+Print Assumptions C04_generated_abort_status_code_is_model.
+
+(* abort(code) / abort(response) raise exactly the exception the model's
+   [call (Abort code)] / [call (AbortResp response)] raise; any other
+   argument fails the assert of HTTPException.__init__; the instance's
+   `args` are (arg, kwargs) as the request cycle reads them; the class
+   derives from Exception; response / status_code are properties *)
+Theorem C04_generated_abort_raises_http_exception :
+  forall w a g,
+    (forall c, gen_abort w a (DV (PInt c)) = (lift_py (call (Abort c) g), []))
+    /\ (forall r, gen_abort w a (DV (PResp r)) = (lift_py (call (AbortResp r) g), []))
+    /\ (forall v, (forall c, v <> PInt c) -> (forall r, v <> PResp r) ->
+                  gen_abort w a (DV v) = raise assert_error)
+    /\ (forall v, gen_abort_init w a (DV v) DKw
+                  = match v with
+                    | PInt c => self_args w (EHttp c)
+                    | PResp r => self_args w (EHttpResp r)
+                    | _ => raise assert_error
+                    end)
+    /\ (forall e, is_http e = true ->
+                  forallb (exn_isa e) (KHTTPException :: gen_abort_bases) = true)
+    /\ gen_abort_members
+       = abort_members_model.
+Proof. exact abort_raises_tie. Qed.
+Print Assumptions C04_generated_abort_raises_http_exception.
+
+(* redirect(...) and RedirectResponse.__init__ (no counterpart in the hand
+   model: a redirect is one more abort(response)).  [tr x] stands for
+   `x is True`, an uninterpreted predicate.  Whenever the generated
+   constructor returns, it returns a response of the base class whose
+   status is 301 if `status_code is True or permanent`, else the given
+   status (302 by default), and whose last Location header is the (UTF-8
+   bytes of the) argument *)
+Theorem C04_generated_redirect_status_and_location :
+  forall w a tr loc st msg hdrs perm x ev,
+    gen_redirect_response_init w a tr loc st msg hdrs perm = (Val x, ev) ->
+    ev = [] /\
+    exists r l l',
+      x = DV (PResp r) /\ loc = DV (PStr l) /\ utf8 l = Some l' /\
+      rcls r = CBase /\
+      (tr st || truthy perm = true -> rstatus r = 301) /\
+      (tr st || truthy perm = false -> st = DV (PInt (rstatus r))) /\
+      hdr_get location_name (rev (rhdrs r)) = Some l' /\
+      gen_redirect_defaults = [DV (PInt 302); DV (PBytes []); DV PNone; of_bool false] /\
+      gen_redirect_response_init_defaults = gen_redirect_defaults.
+Proof. exact redirect_status_and_location_tie. Qed.
+Print Assumptions C04_generated_redirect_status_and_location.
+
+(* redirect raises HTTPException(that response) -- the model's
+   [call (AbortResp r)] --, or the constructor's own exception *)
+Theorem C04_generated_redirect_raises_response_abort :
+  forall w a tr loc st msg hdrs perm g,
+    match gen_redirect_response_init w a tr loc st msg hdrs perm with
+    | (Val (DV (PResp r)), ev) =>
+        gen_redirect w a tr loc st msg hdrs perm = (lift_py (call (AbortResp r) g), ev)
+    | (Val _, _) => False
+    | (Exc e, ev) => gen_redirect w a tr loc st msg hdrs perm = (Exc e, ev)
+    end.
+Proof. exact redirect_raises_tie. Qed.
+Print Assumptions C04_generated_redirect_raises_response_abort.
+
+(* non-vacuity: redirect(location) with the default arguments *)
+Theorem C04_generated_redirect_default :
+  forall w a tr l l',
+    w_known w 302 = true -> tr (DV (PInt 302)) = false -> utf8 l = Some l' ->
+    gen_redirect w a tr (DV (PStr l)) (DV (PInt 302)) (DV (PBytes [])) (DV PNone)
+                 (of_bool false)
+    = raise (EHttpResp (mkResp CBase 302 [xpb; (location_name, l')] text_plain 0 [[]])).
+Proof. exact redirect_default_example. Qed.
+Print Assumptions C04_generated_redirect_default.
